@@ -1267,3 +1267,55 @@ func (m *Model) MustDeliverable(s *MSub, t0, t1 time.Time) []*ED {
 	}
 	return out
 }
+
+// Nack models the backoff-rescheduling nack: an outstanding delivery is rescheduled by the
+// backoff of its current attempt count, or dead-lettered if it has used up its attempts;
+// acknowledged, dead-lettered or expired deliveries are not touched.
+func (m *Model) Nack(ids []string, t0, t1 time.Time) {
+	done := map[*ED]bool{}
+	for _, id := range ids {
+		e := m.AckIDs[id]
+		if e == nil || done[e] {
+			continue
+		}
+		done[e] = true
+		if e.State != stOut && !e.Fuzzy {
+			m.probe("nack_stale_id")
+			continue
+		}
+		if !e.mayAlive(t0) {
+			continue
+		}
+		cfg := &e.Sub.Cfg
+		lo := t0.Add(nominalBackoff(cfg, e.Seen))
+		hi := t1.Add(nominalBackoff(cfg, e.Seen+e.SeenUnc) + time.Second)
+		certain := !e.Fuzzy && !e.DLMaybe && e.mustAlive(t1) && e.Sub.Live
+		if cfg.fullDL() && e.Seen+e.SeenUnc >= int(cfg.MaxAttempts) {
+			if certain && e.Seen >= int(cfg.MaxAttempts) {
+				m.deadLetter(e, t0, t1)
+				m.probe("dl_via_nack")
+			} else if e.Sub.Live {
+				m.deadLetterMaybe(e, t0)
+				if lo.Before(e.LeaseLo) {
+					e.LeaseLo = lo
+				}
+				if hi.After(e.LeaseHi) {
+					e.LeaseHi = hi
+				}
+			}
+			continue
+		}
+		if certain {
+			e.LeaseLo, e.LeaseHi = lo, hi
+			e.Cause = "lease"
+			m.probe("nacked")
+		} else {
+			if lo.Before(e.LeaseLo) {
+				e.LeaseLo = lo
+			}
+			if hi.After(e.LeaseHi) {
+				e.LeaseHi = hi
+			}
+		}
+	}
+}
